@@ -1003,6 +1003,7 @@ impl PoolCase {
             return vec!["bad-op".into()];
         }
         self.feats.push("cross-ring-read".into());
+        simk::purge_closed();
         let before: Vec<i32> = simk::with_sim(|s| s.rings.keys().copied().collect());
         let mut ring_b = match Ring::config().with_submission_queue_size(8).build() {
             Ok(r) => r,
